@@ -31,6 +31,16 @@ import (
 
 func TestMain(m *testing.M) {
 	core.InitMurex()
+	// c36args prints the arguments it was given as a JSON array of strings
+	lang.DefineFunction("c36args", func(p *lang.Process) error {
+		b, err := json.Marshal(p.Parameters.StringArray())
+		if err != nil {
+			return err
+		}
+		p.Stdout.SetDataType("json")
+		_, err = p.Stdout.Write(b)
+		return err
+	}, "json")
 	core.Main(m, "C36")
 }
 
@@ -51,7 +61,7 @@ type Node struct {
 }
 
 type Case struct {
-	Mode string `json:"mode"` // api | stmt
+	Mode string `json:"mode"` // api | stmt | arg
 	EOL  string `json:"eol"`  // "\n" or "\r\n"
 	Doc  *Node  `json:"doc"`
 }
@@ -187,7 +197,7 @@ func genValue(t *rapid.T, depth int, top bool) *Node {
 
 func gen(t *rapid.T) Case {
 	c := Case{Doc: genValue(t, rapid.IntRange(1, 5).Draw(t, "depth"), true)}
-	c.Mode = rapid.SampledFrom([]string{"api", "stmt"}).Draw(t, "mode")
+	c.Mode = rapid.SampledFrom([]string{"api", "stmt", "arg"}).Draw(t, "mode")
 	c.EOL = rapid.SampledFrom([]string{"\n", "\n", "\n", "\r\n"}).Draw(t, "eol")
 	return c
 }
@@ -431,6 +441,31 @@ func check(c Case) *core.Violation {
 		}
 		if d := diff("$", got, want); d != "" {
 			return core.Violf("value", "stdout of the literal differs from encoding/json at %s\nstdout: %s\n%s", d, r.Stdout, src)
+		}
+		return nil
+	case "arg":
+		// the literal as one argument among others: the command gets exactly
+		// that argument, and its text is the JSON value
+		r := core.Run("c36args HEAD " + src + " TAIL\n")
+		if r.Hung {
+			return core.Violf("hang", "statement did not finish\nc36args HEAD %s TAIL", src)
+		}
+		if r.Err != nil || len(r.Stderr) != 0 || r.Exit != 0 {
+			return core.Violf("error", "statement failed: err=%v exit=%d stderr=%q stdout=%q\nc36args HEAD %s TAIL", r.Err, r.Exit, r.Stderr, r.Stdout, src)
+		}
+		var args []string
+		if err := json.Unmarshal(r.Stdout, &args); err != nil {
+			return core.Violf("output", "c36args did not print its arguments (%v): %q", err, r.Stdout)
+		}
+		if len(args) != 3 || args[0] != "HEAD" || args[2] != "TAIL" {
+			return core.Violf("arguments", "`c36args HEAD %s TAIL` received the arguments %q: the literal must be exactly the second of three", src, args)
+		}
+		var got any
+		if err := json.Unmarshal([]byte(args[1]), &got); err != nil {
+			return core.Violf("output", "the literal's argument is not JSON (%v): %q\n%s", err, args[1], src)
+		}
+		if d := diff("$", got, want); d != "" {
+			return core.Violf("value", "the literal's argument differs from encoding/json at %s\nargument: %s\n%s", d, args[1], src)
 		}
 		return nil
 	}
